@@ -157,7 +157,9 @@ impl From<&Instruction> for LocalVariable {
 
 impl From<&AnonymousFunction> for LocalVariable {
     fn from(value: &AnonymousFunction) -> Self {
-        Self::Function(value.params.clone(), value.return_type())
+        // the function's RESULT type (`ReturnType::return_type` of the instruction is the type
+        // of the function value itself)
+        Self::Function(value.params.clone(), value.return_type.clone())
     }
 }
 
